@@ -198,6 +198,11 @@ def prepare(prop):
             extra = set(axioms[n]) - ALLOWED_AXIOMS
             if extra:
                 raise Broken("theorem", f"{n} depends on {sorted(extra)}", "")
+        if os.environ.get("VERIF_TIER_EFFECTIVE") == "thorough":
+            for mod in modules:
+                rc, out, err = sh(["lake", "env", "leanchecker", mod], cwd=LEAN, timeout=3000)
+                if rc != 0:
+                    raise Broken("theorem", f"leanchecker {mod}", (out + err)[-3000:])
         return {"theorems": names, "axioms": sorted({a for n in names for a in axioms[n]})}
     finally:
         fcntl.flock(lockf, fcntl.LOCK_UN)
@@ -278,6 +283,35 @@ def shrink(line, profile, still_bad):
     return best
 
 
+def table_diff():
+    """failing-input search for theorems about extracted tables: entries of the function graphs
+    that differ from the graphs of the unchanged tree (baseline/, committed)"""
+    out = []
+    for prof in ("debug", "release"):
+        try:
+            cur = json.load(open(os.path.join(WORK, f"extract.{prof}.json")))
+            base = json.load(open(os.path.join(ROOT, "baseline", f"extract.{prof}.json")))
+        except Exception:
+            continue
+
+        def walk(a, b, path):
+            if len(out) > 40:
+                return
+            if isinstance(a, dict) and isinstance(b, dict):
+                for k in sorted(set(a) | set(b)):
+                    walk(a.get(k), b.get(k), path + [k])
+            elif isinstance(a, list) and isinstance(b, list) and len(a) == len(b):
+                for i, (x, y) in enumerate(zip(a, b)):
+                    walk(x, y, path + [i])
+            elif a != b:
+                out.append(f"WITNESS profile={prof} table={'/'.join(map(str, path))} unchanged-tree={json.dumps(b)[:120]} now={json.dumps(a)[:120]}")
+        names = [c.get("name") for c in cur.get("codecs", [])]
+        cur2 = dict(cur, codecs={n: c for n, c in zip(names, cur.get("codecs", []))})
+        base2 = dict(base, codecs={c.get("name"): c for c in base.get("codecs", [])})
+        walk(cur2, base2, [])
+    return out
+
+
 def load_known():
     p = os.path.join(ROOT, "KNOWN_FINDINGS.json")
     if not os.path.exists(p):
@@ -321,6 +355,7 @@ def main():
     args = ap.parse_args()
     prop = args.prop
     tier = args.tier if args.tier in ("quick", "thorough") else "quick"
+    os.environ["VERIF_TIER_EFFECTIVE"] = tier
     seed = int(os.environ.get("VERIF_SEED", "1"))
     cfg = PROPS.PROPS[prop]
     t0 = time.time()
@@ -368,6 +403,11 @@ def main():
         w = [l for l in out.splitlines() if l.startswith("WITNESS")]
         if w:
             lean_witness = w
+    if broken and broken.kind == "theorem" and not lean_witness:
+        # generic search: which entries of the extracted function graphs moved (the failing theorem is about those tables)
+        w = table_diff()
+        if w:
+            lean_witness = ["(theorem over the regenerated tables no longer checks; the real code's function graph differs from the unchanged tree at:)"] + w
 
     lines = []
     if harness_ok and driver_ok:
